@@ -98,6 +98,8 @@ EXTRA_ENGINES = [
   "kind_free_text": "growth beyond the listed properties (G05): TLA+ function specs of executable resolution and command-line rendering executed case by case on the real executors classes, and through packages into real processes; a TLA+ state machine of the pre/main/post chain replayed on the real lsf.Task over a lock-stepped /bin/sh batch daemon, plus TLC trace validation of recorded random runs. Run with ./check G05 --tier quick|thorough (evidence/G05.json); not a property check."},
  {"name": "TaskLifecycle", "path": "/verif/spec/TaskLifecycle.tla", "serves_properties": ["C12", "C13"],
   "kind_free_text": "growth beyond the listed properties (G04): TLA+/TLC state machines of LocalTask (Popen + waiter thread on a modelled kernel), SimulatorTask and the monitor primitives (CreateMonitor / CreateDeathAction / CreateEventAction / MonitorExceptionTracker); every model transition replayed on the real classes in a lock-step thread world (scheduling points down to single source lines, virtual clock), random line-level interleavings trace-validated, returncode->exitReason table and exception tracker as function specifications. Run with ./check G04 --tier quick|thorough (evidence/G04.json); not a property check."},
+ {"name": "DataStaging", "path": "/verif/spec/DataStaging.tla", "serves_properties": ["C18", "C10"],
+  "kind_free_text": "growth beyond the listed properties (G07): TLC model of stage-in / task writes / source changes / restart with and without restaging / loop iteration over an abstract file system; every enumerated behaviour replayed on the real Job / ComponentState / StageReference of real experiment instances and compared step by step, random histories trace-validated (DataStaging_trace.tla), real elaunch end-to-end. Run with ./check G07 --tier quick|thorough (evidence/G07.json); not a property check."},
 ]
 
 
@@ -110,7 +112,14 @@ def main():
          "notes": "All checks: ./check <id> --tier quick|thorough; exit 0 held / 1 VIOLATION / 2 machinery failure. See DESIGN.md. Growth checks beyond the listed properties: ./check G01 (EngineLifecycle), ./check G02 (Scheduler extensions), ./check G03 (ExperimentLifecycle), further G0x as listed under engines."}
     engines = {}
     for pid in sorted(CHECKS):
-        c = CHECKS[pid]
+        c = dict(CHECKS[pid])
+        # texts refreshed by the owners of the checks after the seeding rounds (manifest_text/<ID>.json), when present
+        tp = os.path.join(HERE, "manifest_text", pid + ".json")
+        if os.path.exists(tp):
+            t = json.load(open(tp))
+            for k in ("technique", "text", "note"):
+                if isinstance(t.get(k), str) and t[k].strip():
+                    c[k] = t[k].strip()
         engines.setdefault(c["engine"], []).append(pid)
         m["checks"].append({"property_id": pid, "quick_cmd": "./check %s --tier quick" % pid, "thorough_cmd": "./check %s --tier thorough" % pid,
                             "evidence_file": "/verif/evidence/%s.json" % pid, "replay_cmd_template": "./check %s --replay {path}" % pid,
